@@ -1238,3 +1238,210 @@ func (t *tr) assignElem(lhs ast.Expr, tok token.Token, rhs ast.Expr, pos token.P
 	}
 	return "", false
 }
+
+// checkAliasing: slices are translated with VALUE semantics (Lean Arrays).  Go slices share backing arrays, so that is
+// only faithful when no slice that is mutated (element assignment, append) can be reached through a second name.
+// Enforced syntactically, conservatively:
+//  1. `append` only as `x = append(x, ...)` (x a variable) or directly in a `return`;
+//  2. a mutated slice variable is a parameter / named result, or every assignment to it is from a fresh value
+//     (`make`, `nil`, a literal, its own `append`, a call result stored in a variable that is never element-assigned);
+//  3. a mutated slice variable is never copied (`y := x`, `y := x[a:]`, `z[i] = x`) nor passed to a function;
+//  4. a mutated slice parameter has an element type no other slice parameter / view / global of the function has.
+func (t *tr) checkAliasing(fd *ast.FuncDecl) {
+	info := t.p.info
+	mutated := map[types.Object]ast.Node{}
+	elemAssigned := map[types.Object]bool{}
+	objOf := func(e ast.Expr) types.Object {
+		if id, ok := e.(*ast.Ident); ok {
+			return info.Uses[id]
+		}
+		return nil
+	}
+	isAppend := func(e ast.Expr) (*ast.CallExpr, bool) {
+		ce, ok := e.(*ast.CallExpr)
+		if !ok {
+			return nil, false
+		}
+		id, ok := ce.Fun.(*ast.Ident)
+		if !ok || id.Name != "append" {
+			return nil, false
+		}
+		_, isB := info.Uses[id].(*types.Builtin)
+		return ce, isB
+	}
+	okAppend := map[*ast.CallExpr]bool{}
+	ast.Inspect(fd.Body, func(n ast.Node) bool {
+		switch n := n.(type) {
+		case *ast.FuncLit:
+			return false
+		case *ast.AssignStmt:
+			for _, l := range n.Lhs {
+				if ix, ok := l.(*ast.IndexExpr); ok && t.isArr(ix.X) {
+					if o := objOf(ix.X); o != nil {
+						mutated[o] = n
+						elemAssigned[o] = true
+					}
+				}
+			}
+			if len(n.Lhs) == 1 && len(n.Rhs) == 1 {
+				if ce, ok := isAppend(n.Rhs[0]); ok && len(ce.Args) > 0 {
+					if _, isId := ce.Args[0].(*ast.Ident); isId && types.ExprString(n.Lhs[0]) == types.ExprString(ce.Args[0]) {
+						okAppend[ce] = true
+						if o := objOf(ce.Args[0]); o != nil {
+							mutated[o] = n
+						}
+					}
+				}
+			}
+		case *ast.IncDecStmt:
+			if ix, ok := n.X.(*ast.IndexExpr); ok && t.isArr(ix.X) {
+				if o := objOf(ix.X); o != nil {
+					mutated[o] = n
+					elemAssigned[o] = true
+				}
+			}
+		case *ast.ReturnStmt:
+			for _, r := range n.Results {
+				if ce, ok := isAppend(r); ok && len(ce.Args) > 0 {
+					if _, isId := ce.Args[0].(*ast.Ident); isId {
+						okAppend[ce] = true
+					}
+				}
+			}
+		}
+		return true
+	})
+	// 1.
+	ast.Inspect(fd.Body, func(n ast.Node) bool {
+		if ce, ok := n.(*ast.CallExpr); ok {
+			if _, isApp := isAppend(ce); isApp && !okAppend[ce] {
+				t.fail(ce, "append outside `x = append(x, ...)` / `return append(x, ...)` (the result could share x's backing array)")
+			}
+		}
+		return true
+	})
+	if len(mutated) == 0 || t.err != nil {
+		return
+	}
+	fresh := func(e ast.Expr, self types.Object) bool {
+		if tv := info.Types[e]; tv.IsNil() {
+			return true
+		}
+		switch e := e.(type) {
+		case *ast.CompositeLit:
+			return true
+		case *ast.CallExpr:
+			if ce, ok := isAppend(e); ok {
+				return len(ce.Args) > 0 && objOf(ce.Args[0]) == self
+			}
+			if id, ok := e.Fun.(*ast.Ident); ok {
+				if _, isB := info.Uses[id].(*types.Builtin); isB && id.Name == "make" {
+					return true
+				}
+			}
+			// a call result: fresh enough when the variable is only appended to / read, never element-assigned
+			return !elemAssigned[self]
+		}
+		return false
+	}
+	// 2. and 3.
+	ast.Inspect(fd.Body, func(n ast.Node) bool {
+		switch n := n.(type) {
+		case *ast.FuncLit:
+			return false
+		case *ast.AssignStmt:
+			if len(n.Lhs) == len(n.Rhs) {
+				for i, l := range n.Lhs {
+					var o types.Object
+					if id, ok := l.(*ast.Ident); ok {
+						o = info.Defs[id]
+						if o == nil {
+							o = info.Uses[id]
+						}
+					}
+					if o != nil && mutated[o] != nil && !fresh(n.Rhs[i], o) {
+						t.fail(n, "the mutated slice %s is assigned from a value that may share its backing array", o.Name())
+					}
+				}
+			}
+			for _, r := range n.Rhs {
+				root := r
+				if se, ok := root.(*ast.SliceExpr); ok {
+					root = se.X
+				}
+				if o := objOf(root); o != nil && mutated[o] != nil {
+					t.fail(n, "the mutated slice %s is copied (a second name for its backing array)", o.Name())
+				}
+			}
+		case *ast.ValueSpec:
+			for i, id := range n.Names {
+				if o := info.Defs[id]; o != nil && mutated[o] != nil && i < len(n.Values) && !fresh(n.Values[i], o) {
+					t.fail(n, "the mutated slice %s is assigned from a value that may share its backing array", o.Name())
+				}
+			}
+		case *ast.CallExpr:
+			if id, ok := n.Fun.(*ast.Ident); ok {
+				if _, isB := info.Uses[id].(*types.Builtin); isB {
+					return true
+				}
+			}
+			for _, a := range n.Args {
+				if o := objOf(a); o != nil && mutated[o] != nil {
+					t.fail(n, "the mutated slice %s is passed to a function", o.Name())
+				}
+			}
+		}
+		return true
+	})
+	// 4.
+	var sliceTypes []types.Type // element types of the other slice-typed inputs
+	elemOf := func(ty types.Type) types.Type {
+		switch u := ty.Underlying().(type) {
+		case *types.Slice:
+			return u.Elem()
+		}
+		return nil
+	}
+	sig := info.Defs[fd.Name].Type().(*types.Signature)
+	for o := range mutated {
+		v, ok := o.(*types.Var)
+		if !ok {
+			continue
+		}
+		isParam := false
+		for i := 0; i < sig.Params().Len(); i++ {
+			if sig.Params().At(i) == v {
+				isParam = true
+			}
+		}
+		if !isParam {
+			continue
+		}
+		me := elemOf(v.Type())
+		sliceTypes = sliceTypes[:0]
+		for i := 0; i < sig.Params().Len(); i++ {
+			if p := sig.Params().At(i); p != v {
+				if e := elemOf(p.Type()); e != nil {
+					sliceTypes = append(sliceTypes, e)
+				}
+			}
+		}
+		for _, a := range t.abs {
+			for _, vi := range a.views {
+				if vi.ty.c == tArr && vi.ty.alen < 0 && me != nil && t.ltypeOf(me).lean() == vi.ty.elems[0].lean() {
+					t.fail(fd, "the mutated slice parameter %s could share its backing array with the view %s", v.Name(), strings.Join(vi.path, "."))
+				}
+			}
+		}
+		for name, lt := range t.globals {
+			if lt.c == tArr && lt.alen < 0 && me != nil && t.ltypeOf(me).lean() == lt.elems[0].lean() {
+				t.fail(fd, "the mutated slice parameter %s could share its backing array with the global %s", v.Name(), name)
+			}
+		}
+		for _, e := range sliceTypes {
+			if me != nil && types.Identical(e, me) {
+				t.fail(fd, "the mutated slice parameter %s could share its backing array with another slice parameter", v.Name())
+			}
+		}
+	}
+}
